@@ -128,7 +128,7 @@ func run(c *core.Ctx) error {
 func probeGeneric(pool *core.Pool) (map[string]bool, error) {
 	var jobs []core.Job
 	for _, op := range OpOrder {
-		jobs = append(jobs, core.Job{Kind: "elk", Payload: elkrun.Job{Src: prelude + methodSrc("G", op), CheckOnly: true}})
+		jobs = append(jobs, core.Job{Kind: "elk", Payload: elkrun.Job{Src: prelude + methodSrc("G", op), CheckOnly: true}, TimeoutMs: 180000})
 	}
 	res := pool.Map(jobs, nil)
 	ok := map[string]bool{}
@@ -539,8 +539,13 @@ func runBig(c *core.Ctx, pool *core.Pool, generic map[string]bool) error {
 	mod := apa.Module{SpecDir: specDir, Header: bigHeader}
 	par := max(1, c.Workers/2)
 	t1 := time.Now()
-	res, err := apa.Check(mod, c.Scratch, texts, 300, par, 12*time.Minute)
+	res, err := apa.Check(mod, c.Scratch, texts, 200, par, 25*time.Minute)
 	if err != nil {
+		if c.Violations() > 0 {
+			// a tool failure must not mask violations that are already established
+			c.Note(fmt.Sprintf("Apalache stage not completed (%v); verdict rests on the violations found before it", err))
+			return nil
+		}
 		return core.Inconclusivef("Apalache: %v", err)
 	}
 	bad := 0
@@ -588,7 +593,7 @@ func runBig(c *core.Ctx, pool *core.Pool, generic map[string]bool) error {
 				ekeys = append(ekeys, ek{t, d})
 			}
 		}
-		eres, err := apa.Check(mod, c.Scratch, etexts, 300, par, 12*time.Minute)
+		eres, err := apa.Check(mod, c.Scratch, etexts, 200, par, 25*time.Minute)
 		if err != nil {
 			return core.Inconclusivef("Apalache (explanation run): %v", err)
 		}
